@@ -41,32 +41,32 @@ func TestClassifier(t *testing.T) {
 	bloomOnly := stackCfg{bloomBytes: 4096, bloomHashes: 7}
 	cases := []synth{
 		{name: "B: second Delete is a Bloom-negative no-op while the first is in flight, then a stale 2Q positive (observed on the unchanged tree)",
-			cfg: both,
-			all: []ev{wr(5, "PutMany", 347, 352), rd(5, "Has", 353, 354, true), wr(5, "Delete", 355, 391), wr(1, "Delete", 367, 368), rd(4, "Has", 375, 376, true)},
+			cfg:    both,
+			all:    []ev{wr(5, "PutMany", 347, 352), rd(5, "Has", 353, 354, true), wr(5, "Delete", 355, 391), wr(1, "Delete", 367, 368), rd(4, "Has", 375, 376, true)},
 			writes: []dsWrite{{0, false, 350, 351}, {0, true, 356, 357}},
 			builds: []ev{rb(358, 363, 359, 360), rb(370, 639, 371, 390)},
 			want:   []string{"bloom/negative-while-delete-in-flight"}},
 		{name: "same history without a Bloom layer is a violation", cfg: tqOnly,
-			all: []ev{wr(5, "PutMany", 347, 352), rd(5, "Has", 353, 354, true), wr(5, "Delete", 355, 391), wr(1, "Delete", 367, 368), rd(4, "Has", 375, 376, true)},
+			all:    []ev{wr(5, "PutMany", 347, 352), rd(5, "Has", 353, 354, true), wr(5, "Delete", 355, 391), wr(1, "Delete", 367, 368), rd(4, "Has", 375, 376, true)},
 			writes: []dsWrite{{0, false, 350, 351}, {0, true, 356, 357}},
 			want:   []string{"lin/not-linearizable/tq", "rt/present-without-put/tq"}},
 		{name: "same history but the first Delete had returned: violation", cfg: both,
-			all: []ev{wr(5, "PutMany", 347, 352), rd(5, "Has", 353, 354, true), wr(5, "Delete", 355, 365), wr(1, "Delete", 367, 368), rd(4, "Has", 375, 376, true)},
+			all:    []ev{wr(5, "PutMany", 347, 352), rd(5, "Has", 353, 354, true), wr(5, "Delete", 355, 365), wr(1, "Delete", 367, 368), rd(4, "Has", 375, 376, true)},
 			writes: []dsWrite{{0, false, 350, 351}, {0, true, 356, 357}},
 			builds: []ev{rb(358, 363, 359, 360), rb(370, 639, 371, 390)},
 			want:   []string{"lin/not-linearizable/tq+bloom", "rt/present-without-put/tq+bloom"}},
 		{name: "A: Bloom negative while a Put whose write landed after the snapshot is in flight", cfg: bloomOnly,
-			all: []ev{wr(0, "Delete", 1, 2), wr(1, "PutMany", 13, 30), rd(2, "Get", 16, 17, true), rd(2, "Has", 21, 22, false)},
+			all:    []ev{wr(0, "Delete", 1, 2), wr(1, "PutMany", 13, 30), rd(2, "Get", 16, 17, true), rd(2, "Has", 21, 22, false)},
 			writes: []dsWrite{{0, true, 1, 2}, {0, false, 14, 15}},
 			builds: []ev{rb(10, 20, 11, 12)},
 			want:   []string{"bloom/negative-while-put-in-flight"}},
 		{name: "like A but the write landed before the build's Query was issued: violation", cfg: bloomOnly,
-			all: []ev{wr(0, "Delete", 1, 2), wr(1, "PutMany", 5, 30), rd(2, "Get", 16, 17, true), rd(2, "Has", 21, 22, false)},
+			all:    []ev{wr(0, "Delete", 1, 2), wr(1, "PutMany", 5, 30), rd(2, "Get", 16, 17, true), rd(2, "Has", 21, 22, false)},
 			writes: []dsWrite{{0, true, 1, 2}, {0, false, 6, 7}},
 			builds: []ev{rb(10, 20, 11, 12)},
 			want:   []string{"lin/not-linearizable/bloom"}},
 		{name: "like A but the Put had returned before the read was called: headline violation", cfg: bloomOnly,
-			all: []ev{wr(0, "Delete", 1, 2), wr(1, "PutMany", 13, 19), rd(2, "Get", 16, 17, true), rd(2, "Has", 21, 22, false)},
+			all:    []ev{wr(0, "Delete", 1, 2), wr(1, "PutMany", 13, 19), rd(2, "Get", 16, 17, true), rd(2, "Has", 21, 22, false)},
 			writes: []dsWrite{{0, true, 1, 2}, {0, false, 14, 15}},
 			builds: []ev{rb(10, 20, 11, 12)},
 			want:   []string{"lin/not-linearizable/bloom", "rt/missing-after-put/bloom"}},
